@@ -78,15 +78,19 @@ package msg
 //@   requires msg != nil
 //@   ghost-var handed int
 //@   ghost-var stores int
+//@   ghost-var stored bool
 //@   on-call b.MessageHandler.HandleMessage(m):
 //@     assert [the-message] m == msg
+//@     assert [not-stored]  !stored
 //@     ghost handed = handed + 1
 //@   on-call (*Box).store(bb, m):
 //@     assert [the-message] m == msg && handed == 0
 //@     ghost stores = stores + 1
+//@   after-call (*Box).store(bb, m):
+//@     ghost stored = result
 //@   at return:
 //@     assert [at-most-once] handed <= 1 && stores <= 1
-//@     assert [accounted]    handed == 1 || stores == 1 || tooManyTopicsFromSender
+//@     assert [accounted]    handed == 1 || stored || tooManyTopicsFromSender
 //@
 //@ func (*Box).HandleMessage
 //@   props C10 C14 C15
